@@ -242,6 +242,13 @@ inductive RetD (p : Policy) (bs : List Blob) (ms : List Desc) : Nat → Nat → 
   | resp {g c : Nat} {b b' : Blob} {e : Desc} : RetD p bs ms g c → getBlob bs g = some b → opens c b → e ∈ ms →
       classify p bs e = .bound g → getBlob bs e.dig = some b' → RetD p bs ms e.dig (cls e.mt)
 
+theorem RetD.exists {p : Policy} {bs : List Blob} {ms : List Desc} {g c : Nat} (h : RetD p bs ms g c) :
+    ∃ b, getBlob bs g = some b := by
+  induction h with
+  | root _ _ hb => exact ⟨_, hb⟩
+  | child _ _ _ _ hb _ => exact ⟨_, hb⟩
+  | resp _ _ _ _ _ hb _ => exact ⟨_, hb⟩
+
 /-- the digests the policy retains: retained descriptors, config and layers of retained images, and — while the grace
     period runs — recent blobs that no top-level entry names -/
 inductive Retained (p : Policy) (bs : List Blob) (ms : List Desc) : Nat → Prop
